@@ -4,6 +4,14 @@ import json, os, sys
 HERE = os.path.dirname(os.path.dirname(os.path.abspath(__file__)))
 
 CHECKS = {
+ "C09": dict(
+   technique="exhaustive literal-spelling table + sampled literal pairs, differential against a C11 reference and folded-vs-unfolded metamorphic relation",
+   text="Every C-valid literal spelling (19 boundary values x decimal/hex x 7 suffixes) is observed through a 64-bit write, a shift, sizeof, "
+        "unary + - ~ and a comparison; random literal pairs through + - * and the six comparisons (folded) and again with the literals moved "
+        "into typed locals (cannot be folded); a division table checks that inexact / zero division raises; constant-condition ?: templates "
+        "with dead arms sharing operands with live code must stay well-formed and agree with C.",
+   note="Trusted: literal typing of vlib/cref/parse.py (C11 6.4.4.1, LP64), vlib/cref evaluator, C-body checker. Rejecting a fold is allowed.",
+   design="7/C09"),
  "C14": dict(
    technique="Hypothesis rule-based state machine over compilation histories with injected failing compilations; baseline from a pristine process",
    text="A RuleBasedStateMachine drives two Compiler instances of one process with random interleavings of successful compilations (two "
